@@ -596,3 +596,46 @@ Proof.
   destruct w as [dy sh sm eh em]. work_unfold. cbn [r_days r_sh r_sm r_eh r_em].
   intros (Hd & Hsh & Hsm & Heh & Hem). split_ifs; lia.
 Qed.
+
+(* ------------------------------------------------------------------ Profile swap *)
+Lemma swap_takes_profile_values old p :
+  (0 < p_sleep p -> s_sleep (swap_settings old p) = p_sleep p) /\
+  (p_sleep p <= 0 -> s_sleep (swap_settings old p) = s_sleep old) /\
+  (0 <= p_jitter p <= 100 -> s_jitter (swap_settings old p) = p_jitter p) /\
+  (p_jitter p < 0 \/ 100 < p_jitter p -> s_jitter (swap_settings old p) = s_jitter old) /\
+  (forall k, p_kill p = Some k -> s_kill (swap_settings old p) = k) /\
+  (p_kill p = None -> s_kill (swap_settings old p) = s_kill old) /\
+  (forall w, p_work p = Some w -> empty w = false -> s_work (swap_settings old p) = Some w) /\
+  (forall w, p_work p = Some w -> empty w = true -> s_work (swap_settings old p) = None) /\
+  (p_work p = None -> s_work (swap_settings old p) = s_work old).
+Proof.
+  unfold swap_settings. cbn [s_sleep s_jitter s_kill s_work].
+  repeat split.
+  - intros H. replace (0 <? p_sleep p) with true by lia. reflexivity.
+  - intros H. replace (0 <? p_sleep p) with false by lia. reflexivity.
+  - intros H. replace ((0 <=? p_jitter p) && (p_jitter p <=? 100)) with true by lia. unfold u8. lia.
+  - intros H. replace ((0 <=? p_jitter p) && (p_jitter p <=? 100)) with false by lia. reflexivity.
+  - intros k ->. reflexivity.
+  - intros ->. reflexivity.
+  - intros w -> ->. reflexivity.
+  - intros w -> ->. reflexivity.
+  - intros ->. reflexivity.
+Qed.
+
+(* after a swap to a Profile with jitter 0 and sleep d > 0 every delay is exactly d *)
+Lemma swap_jitter0_delay_exact old p gate d sign :
+  p_jitter p = 0 -> 0 < p_sleep p -> delay_with (swap_settings old p) gate d sign = p_sleep p.
+Proof.
+  intros Hj Hs. destruct (swap_takes_profile_values old p) as (A & _ & B & _).
+  unfold delay_with. rewrite (A Hs), (B ltac:(lia)), Hj.
+  apply (jitter_zero_exact_gen impl_le0). left. reflexivity.
+Qed.
+
+(* more generally: whenever the jitter in force after the swap is 0 (set by the Profile, or kept
+   because the Profile does not set one), the delay is the sleep in force *)
+Lemma swap_jitter0_in_force_delay_exact old p gate d sign :
+  s_jitter (swap_settings old p) = 0 ->
+  delay_with (swap_settings old p) gate d sign = s_sleep (swap_settings old p).
+Proof.
+  intros Hj. unfold delay_with. rewrite Hj. apply (jitter_zero_exact_gen impl_le0). left. reflexivity.
+Qed.
